@@ -40,6 +40,10 @@ pub struct SimCase {
     /// journal and client connections are serviced automatically after every step
     pub eager: bool,
     pub choices: Vec<(u16, u32)>,
+    /// generator version: decides how the argument of an action is decoded. Replay files
+    /// written before a generator extension keep their meaning (missing = 0).
+    #[serde(default)]
+    pub genv: u8,
 }
 
 #[derive(Debug, Clone, Copy, Default)]
@@ -234,7 +238,10 @@ pub struct Limits {
     pub max_jobs: usize,
 }
 
+pub const GEN_CURRENT: u8 = 1;
+
 pub struct Sim {
+    pub genv: u8,
     pub world: World,
     pub obs: Rc<RefCell<Obs>>,
     pub mon: Monitors,
@@ -303,6 +310,7 @@ impl Sim {
         let obs = Rc::new(RefCell::new(Obs::default()));
         obs.borrow_mut().epochs.push(EpochObs::default());
         Sim {
+            genv: case.genv,
             world,
             obs,
             mon: Monitors::default(),
@@ -914,11 +922,57 @@ impl Sim {
                 hyperqueue::common::arraydef::IntArray::new_empty()
             } else {
                 let start = max_existing.map(|m| m + 1 + sub(arg, 32, 3) as u32).unwrap_or(sub(arg, 32, 3) as u32);
-                if sub(arg, 33, 4) == 0 && !with_entries {
-                    // stepped range
-                    palette::stepped_range(start, (n as u32) * 2, 2)
+                use hyperqueue::common::arraydef::{IntArray, IntRange};
+                let shape = if self.genv >= 1 {
+                    sub(arg, 33, 8)
+                } else if sub(arg, 33, 4) == 0 {
+                    0
                 } else {
-                    palette::int_array(&(start..start + n as u32).collect::<Vec<_>>())
+                    7
+                };
+                match shape {
+                    0 | 1 if !with_entries => {
+                        // stepped range
+                        palette::stepped_range(start, (n as u32) * 2, 2)
+                    }
+                    2 if n >= 2 => {
+                        // two ranges written in descending order (e.g. `10-12,1-3`)
+                        let n1 = 1 + sub(arg, 36, n - 1) as u32;
+                        let n2 = n as u32 - n1;
+                        let gap = sub(arg, 37, 3) as u32;
+                        IntArray::new(vec![
+                            IntRange::new(start + n1 + gap, n2, 1),
+                            IntRange::new(start, n1, 1),
+                        ])
+                    }
+                    3 if n >= 3 => {
+                        // three single ids / ranges in arbitrary order, with holes
+                        let a = start + 7;
+                        let b = start;
+                        let c = start + 3;
+                        IntArray::new(vec![
+                            IntRange::new(a, n as u32 - 2, 1),
+                            IntRange::new(b, 1, 1),
+                            IntRange::new(c, 1, 1),
+                        ])
+                    }
+                    4 if max_existing.is_some() => {
+                        // ids that are still free below the largest existing id (holes), then above
+                        let used: BTreeSet<u32> = existing_ids.iter().copied().collect();
+                        let mut free: Vec<u32> = (0..max_existing.unwrap())
+                            .filter(|i| !used.contains(i))
+                            .take(n)
+                            .collect();
+                        let mut next = max_existing.unwrap() + 1;
+                        while free.len() < n {
+                            free.push(next);
+                            next += 1;
+                        }
+                        // highest first
+                        free.reverse();
+                        IntArray::new(free.into_iter().map(|i| IntRange::new(i, 1, 1)).collect())
+                    }
+                    _ => palette::int_array(&(start..start + n as u32).collect::<Vec<_>>()),
                 }
             };
             what = format!(
@@ -985,12 +1039,28 @@ impl Sim {
                         deps.push(dep);
                     }
                 }
+                // a dependency may be named more than once (job files and the Python API pass
+                // repeated ids through)
+                if self.genv >= 1 && !deps.is_empty() && sub(arg, 130 + i, 5) == 0 {
+                    let d = deps[sub(arg, 140 + i, deps.len())];
+                    deps.push(d);
+                }
                 let rq_local = if sub(arg, 80 + i, 3) == 0 { 1 } else { 0 };
-                let tdesc = if sub(arg, 90 + i, 4) == 0 {
+                let own_desc = if self.genv >= 1 {
+                    sub(arg, 90 + i, 3) == 0
+                } else {
+                    sub(arg, 90 + i, 4) == 0
+                };
+                let tdesc = if own_desc {
                     palette::task_description(
                         palette::PRIORITIES[sub(arg, 100 + i, palette::PRIORITIES.len())],
                         palette::crash_limit(sub(arg, 110 + i, 6)),
-                        time_limit,
+                        match if self.genv >= 1 { sub(arg, 120 + i, 4) } else { 3 } {
+                            0 => Some(Duration::from_secs(50)),
+                            1 => Some(Duration::from_secs(20)),
+                            2 => None,
+                            _ => time_limit,
+                        },
                     )
                 } else {
                     desc.clone()
@@ -999,8 +1069,24 @@ impl Sim {
             }
             what = format!("graph n={n} rq={rq_idx}/{rq2} prio={prio} crash={crash} tl={time_limit:?} tasks={:?}", tasks.iter().map(|t| (t.0, t.3.clone())).collect::<Vec<_>>());
             if invalid {
-                match sub(arg, 34, 4) {
-                    0 => {
+                match if self.genv >= 1 { sub(arg, 34, 6) } else { sub(arg, 34, 4) } {
+                    4 if tasks.len() > 1 => {
+                        // dependency on a task listed later in the same submit
+                        let later = tasks[tasks.len() - 1].0;
+                        tasks[0].3.push(later);
+                        what.push_str(" INVALID(forward-dep)");
+                    }
+                    5 if tasks.len() > 1 => {
+                        // two-cycle
+                        let a = tasks[0].0;
+                        let b = tasks[1].0;
+                        tasks[0].3.push(b);
+                        if !tasks[1].3.contains(&a) {
+                            tasks[1].3.push(a);
+                        }
+                        what.push_str(" INVALID(cycle)");
+                    }
+                    0 | 4 | 5 => {
                         let id = tasks[0].0;
                         tasks[0].3.push(id);
                         what.push_str(" INVALID(self-dep)");
@@ -1315,6 +1401,7 @@ pub fn case_strategy(
             prefill,
             eager: e < eager_ratio,
             choices,
+            genv: GEN_CURRENT,
         })
         .boxed()
 }
